@@ -2,7 +2,7 @@
 (* VERDICT monitor for C10.                                                  *)
 (*   Init  cs   : <<[desc, nullsFirst], [desc, nullsFirst]>> for k1, k2      *)
 (*         rows : <<k1, k2>> key tokens of the rows written, by id (0 = null)*)
-(*   Out   path, ids, keys (read back), cmp (Schema.Comparator on adjacent   *)
+(*   Out   path, by ("keys" | "rk" | "z": which sorting columns were declared), z, ids, keys (read back), cmp (Schema.Comparator on adjacent   *)
 (*         output rows), dedupe, meta (sorting columns recorded in the file, *)
 (*         <<col, desc, nullsFirst>>; <<<<-1>>>> when not a file), err       *)
 (* Requirement: output is a permutation of the written rows (each row intact)*)
@@ -38,6 +38,9 @@ OutClass(e) ==
   \* sorted by the repeated column: what the order of two lists is, is not in the statement; the buffers and the
   \* sorting writer must at least produce the order that the library's comparator (used by merges) defines
   ELSE IF e.by = "rk" THEN (IF \E i \in 1..Len(e.cmp) : e.cmp[i] > 0 THEN "comparator-disagrees@repeated" ELSE "ok")
+  \* sorted (ascending) by the required column z, which lies behind repeated columns in the row
+  ELSE IF e.by = "z" THEN (IF \E i \in 1..(n - 1) : e.z[i] > e.z[i + 1] THEN "not-sorted@required"
+                           ELSE IF \E i \in 1..Len(e.cmp) : e.cmp[i] > 0 THEN "comparator-disagrees@required" ELSE "ok")
   ELSE IF \E i \in 1..(n - 1) : RowCmp(e.keys[i], e.keys[i + 1]) > 0 THEN "not-sorted"
   ELSE IF \E i \in 1..Len(e.cmp) : e.cmp[i] > 0 THEN "comparator-disagrees"
   ELSE IF e.dedupe = 1 /\ (\E i \in 1..(n - 1) : RowCmp(e.keys[i], e.keys[i + 1]) = 0) THEN "duplicate-key"
